@@ -969,7 +969,7 @@ def correspond(ctx):
     if any(c[0] in 'UE' for _rid, cells in src for c in cells):
       ctx.bump('with-raising-helper')
     lits.append(case_lit(*case))
-  bad = ctx.run_cases('settle', ['Grist.Model.Summary'], 'check_case', lits, shard=100)
+  bad = ctx.run_cases('settle', ['Grist.Model.Summary'], 'check_case', lits, shard=300)
   for i in bad[:5]:
     meta, case = cases[i]
     ctx.broken('correspondence:Model/Summary.v settle_trace differs from the engine',
@@ -978,7 +978,7 @@ def correspond(ctx):
   # how often does the engine's incremental evaluation differ from full re-evaluation (not an error: the
   # theorem C12_incremental_is_full has the hypothesis clean_valid)
   sub = list(range(len(lits))) if ctx.tier == 'thorough' else list(range(0, len(lits), 3))
-  diff = ctx.run_cases('full', ['Grist.Model.Summary'], 'check_case_full', [lits[i] for i in sub], shard=100)
+  diff = ctx.run_cases('full', ['Grist.Model.Summary'], 'check_case_full', [lits[i] for i in sub], shard=300)
   diff = [sub[i] for i in diff if sub[i] not in set(bad)]
   ctx.extra['full_recompute_checked'] = len(sub)
   ctx.extra['full_recompute_differs'] = len(diff)
